@@ -112,8 +112,15 @@ def _loop_returns(stmts: List[ast.stmt], ret: str) -> Optional[List[ast.stmt]]:
 
 def _inlinable(h: FuncInfo, as_statement: bool) -> bool:
     n = h.node
-    if not isinstance(n, ast.FunctionDef) or n.args.vararg or n.args.kwarg or len(n.body) > 40:
+    if not isinstance(n, ast.FunctionDef) or n.args.vararg or len(n.body) > 40:
         return False
+    if n.args.kwarg is not None:
+        # **options is fine when it is only passed on as **options to calls
+        kw = n.args.kwarg.arg
+        uses = [x for x in ast.walk(n) if isinstance(x, ast.Name) and x.id == kw]
+        passed = [k.value for c in ast.walk(n) if isinstance(c, ast.Call) for k in c.keywords if k.arg is None and isinstance(k.value, ast.Name) and k.value.id == kw]
+        if len(uses) != len(passed):
+            return False
     if any(d for d in n.decorator_list if not (isinstance(d, ast.Name) and d.id in ('staticmethod', 'classmethod'))):
         return False
     for x in ast.walk(n):
@@ -158,21 +165,35 @@ def _expr_form(idx: PyIndex, fi: FuncInfo, call: ast.Call, h: FuncInfo) -> Optio
     # arguments are substituted textually: only side-effect-free, cheap argument expressions
     if not all(isinstance(v, (ast.Name, ast.Constant)) or (isinstance(v, ast.Attribute) and _is_path(v)) for v in bound.values()):
         return None
-    env: Dict[str, ast.AST] = dict(bound)
-    for st in body:
-        if isinstance(st, ast.Assign) and len(st.targets) == 1 and isinstance(st.targets[0], ast.Name) and st.targets[0].id not in env:
-            env[st.targets[0].id] = _SubstExpr(env).visit(copy.deepcopy(st.value))
-        elif isinstance(st, ast.Return) and st.value is not None and st is body[-1]:
-            e = _SubstExpr(env).visit(copy.deepcopy(st.value))
-            if h.module != fi.module and h.module in idx.modules and fi.module in idx.modules:
-                hs, cs = idx.modules[h.module].symbols, idx.modules[fi.module].symbols
-                for x in ast.walk(e):
-                    if isinstance(x, ast.Name) and x.id in hs and x.id not in cs:
-                        cs[x.id] = hs[x.id]
-            return e
-        else:
+    def conv(stmts, env, depth=0):
+        if depth > 8:
             return None
-    return None
+        env = dict(env)
+        for i, st in enumerate(stmts):
+            if isinstance(st, ast.Assign) and len(st.targets) == 1 and isinstance(st.targets[0], ast.Name) and st.targets[0].id not in env:
+                env[st.targets[0].id] = _SubstExpr(env).visit(copy.deepcopy(st.value))
+                continue
+            if isinstance(st, ast.Return) and st.value is not None:
+                return _SubstExpr(env).visit(copy.deepcopy(st.value))
+            if isinstance(st, ast.If):
+                rest = list(stmts[i + 1:])
+                a = conv(list(st.body) + rest, env, depth + 1)
+                b = conv(list(st.orelse) + rest, env, depth + 1)
+                if a is None or b is None:
+                    return None
+                return ast.IfExp(test=_SubstExpr(env).visit(copy.deepcopy(st.test)), body=a, orelse=b)
+            return None
+        return None
+    e = conv(body, dict(bound))
+    if e is None:
+        return None
+    ast.fix_missing_locations(ast.Expression(body=e))
+    if h.module != fi.module and h.module in idx.modules and fi.module in idx.modules:
+        hs, cs = idx.modules[h.module].symbols, idx.modules[fi.module].symbols
+        for x in ast.walk(e):
+            if isinstance(x, ast.Name) and x.id in hs and x.id not in cs:
+                cs[x.id] = hs[x.id]
+    return e
 
 
 def _is_path(e: ast.AST) -> bool:
@@ -222,10 +243,28 @@ def _expand(idx: PyIndex, fi: FuncInfo, call: ast.Call, h: FuncInfo, at: ast.AST
         if isinstance(a, ast.Starred):
             return None
         bound[p] = a
+    extra_kw: List[ast.keyword] = []
     for kw in call.keywords:
         if kw.arg is None:
             return None
-        bound[kw.arg] = kw.value
+        if kw.arg in params or kw.arg in [a.arg for a in hn.args.kwonlyargs]:
+            bound[kw.arg] = kw.value
+        elif hn.args.kwarg is not None:
+            extra_kw.append(kw)
+        else:
+            return None
+    if hn.args.kwarg is not None:
+        # `**options` in the helper's own calls becomes the keywords given at this call site
+        kwname = hn.args.kwarg.arg
+        for c in ast.walk(hn):
+            if isinstance(c, ast.Call):
+                newk = []
+                for k in c.keywords:
+                    if k.arg is None and isinstance(k.value, ast.Name) and k.value.id == kwname:
+                        newk.extend(copy.deepcopy(extra_kw))
+                    else:
+                        newk.append(k)
+                c.keywords = newk
     stored = {x.id for x in ast.walk(hn) if isinstance(x, ast.Name) and isinstance(x.ctx, (ast.Store, ast.Del))}
     direct: Dict[str, ast.AST] = {}
     for p in params + [a.arg for a in hn.args.kwonlyargs]:
